@@ -869,7 +869,22 @@ func (f *FeaturesByID) FindRelationsByFeature(id b6.FeatureID) b6.RelationFeatur
 			break
 		}
 	}
-	return ingest.NewRelationFeatureIterator(relations)
+	// A relation that lists a feature more than once is stored once per
+	// mention: report it once, like the in-memory world does.
+	unique := relations[0:0]
+	for _, r := range relations {
+		seen := false
+		for _, u := range unique {
+			if r != nil && u != nil && u.FeatureID() == r.FeatureID() {
+				seen = true
+				break
+			}
+		}
+		if !seen {
+			unique = append(unique, r)
+		}
+	}
+	return ingest.NewRelationFeatureIterator(unique)
 }
 
 func (f *FeaturesByID) fillRelationsFromPoint(fb *featureBlock, id uint64, relations []b6.RelationFeature) []b6.RelationFeature {
